@@ -6,7 +6,7 @@ ORD = ["dna", "text", "mdna", "miupac", "degen"]
 
 PLAN = {
     "C01": dict(
-        traces=[("long_c01", (1, 2)), ("c01", (1, 6)), ("c01x", (None, 1))],
+        traces=[("sweep_c01", (1, 2)), ("long_c01", (1, 2)), ("c01", (1, 6)), ("c01x", (None, 1))],
         seeds=dict(quick=1, thorough=3), seeded={"c01x": False},
         mc=dict(quick=["MC_C01"]),
         rule="parse events through the 7 entry points x 7 codecs x word-boundary lengths x "
@@ -14,7 +14,7 @@ PLAN = {
              "non-trivial = some sequence involved is non-empty",
     ),
     "C02": dict(
-        traces=[("long_c02", (1, 2)), ("c02", (1, None)), ("c02all", (None, 4))],
+        traces=[("sweep_c02", (1, 2)), ("long_c02", (1, 2)), ("c02", (1, None)), ("c02all", (None, 4))],
         seeds=dict(quick=1, thorough=2),
         mc=dict(quick=["MC_C02"]),
         rule="eq / hash / mapget events over content pairs {equal, one symbol changed first/last/random, "
@@ -22,7 +22,7 @@ PLAN = {
              "static literal, SeqArray, Kmer on usize/u64/u128, &str); distinct event lines with non-empty operands",
     ),
     "C03": dict(
-        traces=[("long_c03", (1, 2)), ("c03", (2, 12))],
+        traces=[("sweep_c03", (1, 2)), ("long_c03", (1, 2)), ("c03", (2, 12))],
         seeds=dict(quick=1, thorough=3),
         mc=dict(quick=["MC_C03"]),
         gen=dict(quick=[("Gen_C03", "Gen_C03.cfg")], thorough=[("Gen_C03", "Gen_C03_T.cfg")]),
@@ -30,7 +30,7 @@ PLAN = {
              "word-boundary lengths incl. steps just past the end; TLC-enumerated expressions replayed",
     ),
     "C04": dict(
-        traces=[("long_c04", (1, 2)), ("c04", (2, None)), ("c04all", (None, 4))],
+        traces=[("sweep_c04", (1, 2)), ("long_c04", (1, 2)), ("c04", (2, None)), ("c04all", (None, 4))],
         seeds=dict(quick=1, thorough=3),
         mc=dict(quick=["MC_C04"]),
         rule="toint / kfromint / intoraw / fromraw events: slices at offsets with K*BITS <=/> 64, images of "
@@ -44,7 +44,7 @@ PLAN = {
              "rejection) plus one codecinfo event per codec; both build profiles; finite domain enumerated completely",
     ),
     "C06": dict(
-        traces=[("long_c06", (1, 2)), ("c06", (400, 3000))],
+        traces=[("sweep_c06", (1, 2)), ("long_c06", (1, 2)), ("c06", (400, 3000))],
         seeds=dict(quick=1, thorough=4),
         mc=dict(quick=["MC_C06"]),
         gen=dict(quick=[("Gen_C06", "Gen_C06.cfg")], thorough=[("Gen_C06", "Gen_C06_T.cfg"), ("Gen_C06", "Gen_C06_T3.cfg")]),
@@ -53,14 +53,14 @@ PLAN = {
              "histories of depth <= 3 replayed",
     ),
     "C07": dict(
-        traces=[("long_c07", (1, 2)), ("c07", (1, None)), ("c07all", (None, 1))],
+        traces=[("sweep_c07", (1, 2)), ("long_c07", (1, 2)), ("c07", (1, None)), ("c07all", (None, 1))],
         seeds=dict(quick=1, thorough=2),
         mc=dict(quick=["MC_C07"]),
         rule="copying / inplace transform events (rev, comp, revcomp) on slices at offsets x word-boundary lengths, "
              "compositions and receiver re-observation",
     ),
     "C08": dict(
-        traces=[("c08", (1, None)), ("c08all", (None, 1))],
+        traces=[("sweep_c08", (1, 2)), ("c08", (1, None)), ("c08all", (None, 1))],
         seeds=dict(quick=1, thorough=2),
         mc=dict(quick=["MC_C08"]),
         rule="kfrom / kparse / kmers / ktoseq / deref events for boundary K (quick) or every instantiated K "
@@ -75,15 +75,15 @@ PLAN = {
              "on boundary patterns for every K x storage; exhaustive over all k-mers for small K",
     ),
     "C10": dict(
-        traces=[("long_c10", (1, 2)), ("c10", (1, None)), ("c10all", (None, 2))],
-        codecs={"long_c10": ORD, "c10": ORD, "c10all": ORD},
+        traces=[("sweep_c10", (1, 2)), ("long_c10", (1, 2)), ("c10", (1, None)), ("c10all", (None, 2))],
+        codecs={"sweep_c10": ORD, "long_c10": ORD, "c10": ORD, "c10all": ORD},
         seeds=dict(quick=1, thorough=3),
         mc=dict(quick=["MC_C10"]),
         rule="cmp events on adversarial k-mer pairs (differ only first / only last, first-says-less-last-says-greater) "
              "for every K x storage, min/max/sort minimisers, equal-length owned sequences; codecs that are Ord",
     ),
     "C11": dict(
-        traces=[("long_c11", (1, 2)), ("c11", (1, None)), ("c11all", (None, 2))],
+        traces=[("sweep_c11", (1, 2)), ("long_c11", (1, 2)), ("c11", (1, None)), ("c11all", (None, 2))],
         seeds=dict(quick=1, thorough=2),
         mc=dict(quick=["MC_C11"]),
         gen=dict(quick=[("Gen_C11", "Gen_C11.cfg")], thorough=[("Gen_C11", "Gen_C11_T.cfg")]),
@@ -91,8 +91,8 @@ PLAN = {
              "plus step-wise itnew/itnext interleavings (the iterator state machine)",
     ),
     "C12": dict(
-        traces=[("long_c12", (1, 2)), ("c12", (1, None)), ("c12all", (None, 1)), ("c12dna", (1, 1))],
-        codecs={"long_c12": ["iupac"], "c12": ["iupac"], "c12all": ["iupac"], "c12dna": ["dna"]},
+        traces=[("sweep_c12", (1, 2)), ("long_c12", (1, 2)), ("c12", (1, None)), ("c12all", (None, 1)), ("c12dna", (1, 1))],
+        codecs={"sweep_c12": ["iupac"], "long_c12": ["iupac"], "c12": ["iupac"], "c12all": ["iupac"], "c12dna": ["dna"]},
         seeds=dict(quick=1, thorough=2),
         mc=dict(quick=["MC_C12"]),
         rule="bitop / contains events: operands laid out so all 256 symbol pairs meet, at independent nibble "
@@ -101,8 +101,8 @@ PLAN = {
     ),
     "C13": dict(
         gen=dict(quick=[("Gen_C13", "Gen_C13.cfg")]),
-        traces=[("long_c13", (1, 2)), ("c13", (30, 300))],
-        codecs={"long_c13": ["dna"], "c13": ["dna"]},
+        traces=[("sweep_c13", (1, 2)), ("long_c13", (1, 2)), ("c13", (30, 300))],
+        codecs={"sweep_c13": ["dna"], "long_c13": ["dna"], "c13": ["dna"]},
         seeds=dict(quick=1, thorough=3),
         mc=dict(quick=["MC_C13"]),
         exhaustive=True,
@@ -146,15 +146,15 @@ PLAN = {
         assumptions=["rustc's accept/reject verdict on a generated program is taken as observed (TLC never sees inside the compiler)"],
     ),
     "C18": dict(
-        traces=[("long_c18", (1, 2)), ("c18", (6, None)), ("c18all", (None, 12))],
+        traces=[("sweep_c18", (1, 2)), ("long_c18", (1, 2)), ("c18", (6, None)), ("c18all", (None, 12))],
         seeds=dict(quick=1, thorough=3),
         mc=dict(quick=["MC_C06"]),
         rule="serde / kserde events (json + bincode) on sequences with histories (with_capacity, offset copies, "
              "reversal, removals) and on k-mers of boundary / every K and storage",
     ),
     "C19": dict(
-        traces=[("long_c19", (1, 2)), ("c19conv", (2, 10)), ("c19trim", (5, 6))],
-        codecs={"long_c19": ["dna"], "c19conv": ["dna"]},
+        traces=[("sweep_c19", (1, 2)), ("long_c19", (1, 2)), ("c19conv", (2, 10)), ("c19trim", (5, 6))],
+        codecs={"sweep_c19": ["dna"], "long_c19": ["dna"], "c19conv": ["dna"]},
         seeds=dict(quick=1, thorough=3),
         mc=dict(quick=["MC_C19"]),
         rule="convert events (dna->iupac/text from slices, literals, SeqArray by ref and by value), textbase for "
@@ -162,8 +162,8 @@ PLAN = {
              "plus random long inputs",
     ),
     "C20": dict(
-        traces=[("long_c20", (1, 2)), ("c20", (1, None)), ("c20all", (None, 1))],
-        codecs={"long_c20": ["mdna", "miupac"], "c20": ["mdna", "miupac"], "c20all": ["mdna", "miupac"]},
+        traces=[("sweep_c20", (1, 2)), ("long_c20", (1, 2)), ("c20", (1, None)), ("c20all", (None, 1))],
+        codecs={"sweep_c20": ["mdna", "miupac"], "long_c20": ["mdna", "miupac"], "c20": ["mdna", "miupac"], "c20all": ["mdna", "miupac"]},
         seeds=dict(quick=1, thorough=2),
         mc=dict(quick=["MC_C20"]),
         rule="mask / unmask copying and in-place events composed with rev / comp / revcomp on sequences with "
